@@ -11,8 +11,13 @@ print(out)
 dest = Path("/verif/seeded") / name
 dest.mkdir(parents=True, exist_ok=True)
 m = src / "MUTANT"
-shutil.copy(m / "patch.diff", dest / "patch.diff")
-shutil.copy(m / "demo.py", dest / "demo.py")
+for item in m.iterdir():
+    if item.name in ("__pycache__", "meta.json"):
+        continue
+    if item.is_dir():
+        shutil.copytree(item, dest / item.name, dirs_exist_ok=True, ignore=shutil.ignore_patterns("__pycache__"))
+    else:
+        shutil.copy(item, dest / item.name)
 meta = json.loads((m / "meta.json").read_text()) if (m / "meta.json").exists() else {}
 res = {}
 for ln in out.splitlines():
